@@ -76,6 +76,7 @@ def check(ctx):
     ctx.rule("R3", "each registered converter is paired with its confirmed detyper (and validator family) in the Var registry and ENSURERS", floor=25)
     ctx.rule("R4", "detype stores a string for a variable only past the three skips: DELETE_VAR mask, no detyper, None result", floor=3)
     ctx.rule("R5", "the child's environment is computed inside the per-command swap, at launch time", floor=2)
+    ctx.rule("R6", "the per-command overlay is normalised for every shape of value: an element of a list value is read only where the guard shows it exists", floor=1)
 
     mod = ctx.repo.module(EN)
     cls = mod.cls("Env")
@@ -325,6 +326,115 @@ def check(ctx):
                 why = f"overlay `{short(ev, 50)}` is not indexed by the position of the command in `{cmds_p}`" + (f" (`{idx}`)" if idx else " (no enumerate index)")
         ctx.ob("R5", f"{SP}:cmds_to_specs", f"`{short(c, 60)}`: the per-command overlay is taken from `envs` at the command's own position in the command list", ok, key="cmds_to_specs|overlay-misaligned", where=loc(c), detail=why)
 
+    _overlay_index_safety(ctx, sp)
+
+
+def _guard_context(node, stop):
+    """(test, polarity) pairs that hold whenever ``node`` is evaluated, from the expression-level constructs
+    between ``node`` and the statement ``stop``: conditional expressions, short-circuit operators, comprehension filters."""
+    out = []
+    child = node
+    for a in ancestors(node):
+        if isinstance(a, ast.IfExp):
+            if child is a.body:
+                out.append((a.test, True))
+            elif child is a.orelse:
+                out.append((a.test, False))
+        elif isinstance(a, ast.BoolOp):
+            i = next((k for k, v_ in enumerate(a.values) if v_ is child), None)
+            if i:
+                out += [(v_, isinstance(a.op, ast.And)) for v_ in a.values[:i]]
+        elif isinstance(a, (ast.ListComp, ast.SetComp, ast.DictComp, ast.GeneratorExp)):
+            if not any(child is g or child is g.iter for g in a.generators):
+                for g in a.generators:
+                    out += [(t, True) for t in g.ifs]
+        if a is stop:
+            break
+        child = a
+    return out
+
+
+def _overlay_index_safety(ctx, sp):
+    """`$E=@(seq) cmd`: the parser hands the overlay values as lists of words; the spec unwraps one-word lists.  Every
+    constant-index read of such a value must sit under a guard that implies the element exists, for every shape the
+    value can have: not a list; a list of 0, 1, 2, 3 words (abstract enumeration over (is-list, length))."""
+    init = sp.func("SubprocSpec.__init__")
+    st = f"{SP}:SubprocSpec.__init__"
+    stores = [n for n in walk_local(init) if isinstance(n, ast.Assign) and any(unparse(t) == "self.env" for t in n.targets) and not (isinstance(n.value, ast.Constant) and n.value.value is None)]
+    if not stores:
+        raise AnchorMissing(f"{st}: the overlay store `self.env = ...`")
+    params = {a_.arg for a_ in init.args.args + init.args.kwonlyargs}
+    cfg = None
+    n_sub = 0
+    for store in stores:
+        srcs = {x.id for x in ast.walk(store.value) if isinstance(x, ast.Name) and x.id in params}
+        # names ranging over the overlay's values: `for k, v in P.items()` / `for v in P.values()` in comprehensions or loops
+        vals = set()
+        gens = [g for c in ast.walk(store.value) if isinstance(c, (ast.ListComp, ast.SetComp, ast.DictComp, ast.GeneratorExp)) for g in c.generators]
+        for g in gens:
+            it = g.iter
+            if isinstance(it, ast.Call) and isinstance(it.func, ast.Attribute) and isinstance(it.func.value, ast.Name) and it.func.value.id in srcs:
+                if it.func.attr == "items" and isinstance(g.target, (ast.Tuple, ast.List)) and len(g.target.elts) == 2 and isinstance(g.target.elts[1], ast.Name):
+                    vals.add(g.target.elts[1].id)
+                elif it.func.attr == "values" and isinstance(g.target, ast.Name):
+                    vals.add(g.target.id)
+        def _idx(e):
+            if isinstance(e, ast.UnaryOp) and isinstance(e.op, ast.USub) and type(const_value(e.operand, None)) is int:
+                return -e.operand.value
+            return e.value if type(const_value(e, None)) is int else None
+
+        subs = [x for x in ast.walk(store.value) if isinstance(x, ast.Subscript) and isinstance(x.value, ast.Name) and x.value.id in vals and _idx(x.slice) is not None]
+        for x in subs:
+            n_sub += 1
+            v, k = x.value.id, _idx(x.slice)
+            need = k + 1 if k >= 0 else -k  # the length the read needs
+            guards = _guard_context(x, store)
+            cfg = cfg or CFG(init)
+            nodes = cfg.nodes_of(store)
+            if nodes:
+                guards += list(facts_at(cfg, nodes[0]))
+            # a test that does not mention the value cannot constrain its shape
+            guards = [(t, pol) for t, pol in guards if any(isinstance(n_, ast.Name) and n_.id == v for n_ in ast.walk(t))]
+            in_try = any(isinstance(a, ast.Try) and any(h.type is None or any(t in unparse(h.type) for t in ("IndexError", "LookupError", "Exception")) for h in a.handlers) and any(lexically_inside(x, b) for b in a.body) for a in ancestors(x))
+            bad, undecided = None, None
+            for is_list in (True, False):
+                for ln in range(0, need + 3):
+                    if not is_list or ln >= need:
+                        continue  # the read itself is fine in this shape (a non-list is not what the unwrap is for)
+
+                    def atoms(e, is_list=is_list, ln=ln):
+                        if isinstance(e, ast.Call) and call_name(e) == "isinstance" and len(e.args) == 2 and unparse(e.args[0]) == v:
+                            kinds = unparse(e.args[1])
+                            return is_list if "list" in kinds else (None if is_list else None)
+                        if isinstance(e, ast.Name) and e.id == v:
+                            return ln > 0 if is_list else None
+                        if isinstance(e, ast.Compare) and len(e.ops) == 1:
+                            l, r = e.left, e.comparators[0]
+                            lv = ln if unparse(l) == f"len({v})" else const_value(l, None)
+                            rv = ln if unparse(r) == f"len({v})" else const_value(r, None)
+                            if f"len({v})" in (unparse(l), unparse(r)) and isinstance(lv, int) and isinstance(rv, int):
+                                op = e.ops[0]
+                                table = {ast.Lt: lv < rv, ast.LtE: lv <= rv, ast.Gt: lv > rv, ast.GtE: lv >= rv, ast.Eq: lv == rv, ast.NotEq: lv != rv}
+                                return table.get(type(op))
+                        return None
+
+                    res = [ev3(t, atoms) for t, pol in guards]
+                    vals3 = [None if r is None else (r == pol) for r, (t, pol) in zip(res, guards)]
+                    if any(b is False for b in vals3):
+                        continue  # this shape never reaches the read
+                    if all(b is True for b in vals3):
+                        bad = bad or f"a list of {ln} word(s) reaches `{short(x)}`"
+                    else:
+                        undecided = undecided or f"a list of {ln} word(s): guard `{' and '.join(('' if pol else 'not ') + '(' + short(t, 40) + ')' for (t, pol), b in zip(guards, vals3) if b is None)}` not decided"
+            if in_try:
+                bad = undecided = None
+            if bad is None and undecided is not None:
+                raise AnalysisError(f"{st}: index safety of `{short(x)}` not decidable: {undecided}")
+            ctx.ob("R6", st, f"`{short(x)}` on an overlay value is read only where the guard implies {need} element(s) exist (shapes enumerated: not a list; lists of 0..{need + 2} words)", bad is None, key=f"overlay-unwrap|{short(x)}|unguarded-index", where=loc(x), detail=bad)
+    if not n_sub:
+        # nothing is unwrapped by index: the clause holds vacuously, say so
+        ctx.ob("R6", st, "no constant-index read of an overlay value in the normaliser", True, key="overlay-unwrap|none")
+
 
 META = {
     "technique": "static analysis: who-may-write the variable store + CFG must-pass-through to the memo invalidation, alias-escape rule for the memoised mapping, contradiction rule over the Var/ENSURERS registry, guard dominance in detype",
@@ -335,7 +445,7 @@ META = {
     "reported (known finding); each of the ~35 explicitly registered (validate, convert, detype) triples pairs the "
     "converter with its confirmed detyper; detype exports a string only past the mask / no-detyper / None skips; "
     "the child's mapping is computed inside the per-command swap; a stage's `$X=1` overlay is read from `envs` at "
-    "the stage's own position in the command list. Value-level round-trips are not decided.",
+    "the stage's own position in the command list; the overlay normaliser's indexed reads are guarded for every shape of value (non-list, lists of 0..n words). Value-level round-trips are not decided.",
     "note": "Decides the listed structural clauses, not the behaviour. The converter->detyper table is frozen from "
     "reading tools.py/environ.py; a converter the table has never seen is reported in the evidence, not failed.",
 }
